@@ -4,6 +4,8 @@ a configuration spot check used by C07, C08, C10 (C11 has its own). Jobs are JSO
        "flip_msb"|"swap_multiples", "arg": int | hex string, "m": int (swap only)}
 Results: int, hex string, or "raised <Type>"."""
 import json
+import os
+import re
 import subprocess
 import sys
 
@@ -54,11 +56,29 @@ print(json.dumps(out))
 """
 
 
+def library_fault(stderr):
+    """A flagged helper interpreter died: was it the library? True when the innermost traceback frame lies in
+    the repository under test (e.g. a module-level statement that needs docstrings fails under -OO). The
+    helper itself runs unchanged under every flag on the unchanged tree, so such a failure says "the library
+    cannot be used under this interpreter configuration" - a violation of the property's totality, not a
+    harness error. Anything else (frame in the helper, in /verif, in the standard library) stays a harness error."""
+    frames = re.findall(r'File "([^"]+)", line \d+', stderr or "")
+    return bool(frames) and os.path.abspath(frames[-1]).startswith(os.path.abspath(REPO) + os.sep)
+
+
+def fault_line(stderr):
+    lines = [l for l in (stderr or "").strip().splitlines() if l.strip()]
+    return lines[-1][:300] if lines else ""
+
+
 def run(jobs, flag, threads=0):
     """flag: interpreter flag ("-O", "-OO", or "-B" for none); threads > 1: the jobs are the process' FIRST
     calls into the library and are issued by that many threads released together."""
     r = subprocess.run([sys.executable, "-B", flag, "-c", _SUB, REPO, str(threads)], input=json.dumps(jobs),
                        capture_output=True, text=True)
     if r.returncode != 0:
+        if library_fault(r.stderr):
+            # every job "raised": the callers compare with their oracle and report the first mismatch
+            return ["library unusable under python %s: %s" % (flag, fault_line(r.stderr))] * len(jobs)
         raise RuntimeError(f"python {flag} helper failed: {r.stderr[-800:]}")
     return json.loads(r.stdout.strip().splitlines()[-1])
